@@ -48,6 +48,7 @@ type Contract struct {
 	CallReqs []*CallReq // extra conditions at call sites inside this function
 	SendReqs []*Clause  // conditions on values this function sends on a channel ("sent" names the value)
 	SendSite []int      // per SendReqs entry: 0 = every send site, k = only the k-th send site in source order
+	Preserves []string // "preserves pkg.T ...": everything may be written except the fields of these struct types (and ghosts)
 	Oracle bool     // executable transcription of the property used for counterexample search; not verified
 	Covers []string // function-key substrings whose failed obligations this oracle can witness
 }
@@ -55,7 +56,7 @@ type Contract struct {
 var clauseKeywords = map[string]bool{
 	"func": true, "mode": true, "props": true, "trusted": true, "requires": true, "ensures": true,
 	"assigns": true, "nopanic": true, "pure": true, "loop": true, "invariant": true, "decreases": true,
-	"note": true, "funcfield": true, "iface": true, "global": true, "let": true, "oracle": true, "covers": true, "def": true, "callreq": true, "sendreq": true,
+	"note": true, "funcfield": true, "iface": true, "global": true, "let": true, "oracle": true, "covers": true, "def": true, "callreq": true, "sendreq": true, "preserves": true,
 }
 
 // parseContractFile reads //@ lines. pkgPath is the import path of the
@@ -208,6 +209,10 @@ func parseContractLines(sc *bufio.Scanner, path, pkgPath string) ([]*Contract, e
 			}
 			cur.SendReqs = append(cur.SendReqs, c)
 			cur.SendSite = append(cur.SendSite, site)
+		case "preserves":
+			for _, f := range strings.Fields(strings.ReplaceAll(rc.text, ",", " ")) {
+				cur.Preserves = append(cur.Preserves, f)
+			}
 		case "oracle":
 			cur.Oracle = true
 		case "covers":
